@@ -1,11 +1,21 @@
 //# target: src/callbacks/balances.rs
 //# models: fs hashmap
+//# needs: unspent_c10.rs common_c07.rs
 // C10 flush_before_rename (Balances), C08 aggregate.
 use crate::verif_models::fs as gfs;
 use crate::verif_models::fmtm;
 
 fn mk_dump(cap: usize) -> Balances {
-    Balances { dump_folder: PathBuf::new() /* empty: [measured] PathBuf::join on a non-empty base runs std's component parser over heap bytes and dominates symbolic execution */, writer: BufWriter::with_capacity(cap, gfs::File::ghost(3)), unspents: HashMap::new(), start_height: 0, end_height: 0 }
+    unsafe {
+        let mut x = core::mem::MaybeUninit::<Balances>::zeroed();
+        let p = x.as_mut_ptr();
+        core::ptr::write(core::ptr::addr_of_mut!((*p).dump_folder), PathBuf::new());
+        core::ptr::write(core::ptr::addr_of_mut!((*p).writer), BufWriter::with_capacity(cap, gfs::File::ghost(3)));
+        core::ptr::write(core::ptr::addr_of_mut!((*p).unspents), HashMap::new());
+        core::ptr::write(core::ptr::addr_of_mut!((*p).start_height), 0u64);
+        core::ptr::write(core::ptr::addr_of_mut!((*p).end_height), 0u64);
+        x.assume_init()
+    }
 }
 fn key(b: u8) -> Vec<u8> {
     let mut k = vec![0u8; 36];
@@ -126,4 +136,57 @@ fn c02_balances_name() {
     }
     kani::cover!(true, "evaluated");
     core::mem::forget(cb);
+}
+
+// ---- C08 same_set: Balances::on_block and UnspentCsvDump::on_block leave the same unspent set ----------
+//@ id=C08,C07 tier=quick name=c08_same_set timeout=1800 role=same_set bound=1-block,2-txs(2+1-outputs),symbolic-values/addresses/spend-outpoint fn=Balances::on_block,UnspentCsvDump::on_block,remove_unspents,insert_unspents mem=20
+#[kani::proof]
+#[kani::unwind(40)]
+fn c08_same_set() {
+    use crate::callbacks::common::vk_common_c07 as cm;
+    use crate::callbacks::unspentcsvdump::vk_unspent_c10 as ux;
+    use crate::blockchain::proto::header::BlockHeader;
+    use crate::blockchain::proto::varuint::VarUint;
+    use crate::blockchain::proto::Hashed;
+    use bitcoin::hashes::{sha256d, Hash};
+    let v: [u64; 3] = kani::any();
+    let a: [u8; 3] = kani::any();
+    kani::assume(a[0] < 3 && a[1] < 3 && a[2] < 3);
+    let sp_first: u8 = kani::any();
+    let sp_ix: u32 = kani::any();
+    let id1 = [1u8; 32];
+    let id2 = [2u8; 32];
+    let mut sp = [1u8; 32];
+    sp[0] = sp_first; // == 1: an output of tx1, otherwise an outpoint unknown to the range
+    let z = sha256d::Hash::all_zeros();
+    let mk = |a: &[u8; 3], v: &[u64; 3]| -> Block {
+        let tx1 = cm::mk_htx(id1, vec![cm::mk_in([9u8; 32], 7)], vec![cm::mk_out(v[0], a[0]), cm::mk_out(v[1], a[1])]);
+        let tx2 = cm::mk_htx(id2, vec![cm::mk_in(sp, sp_ix)], vec![cm::mk_out(v[2], a[2])]);
+        Block { size: 0, header: Hashed { hash: z, value: BlockHeader { version: 1, prev_hash: z, merkle_root: z, timestamp: 0, bits: 0, nonce: 0 } },
+                aux_pow_extension: None, tx_count: VarUint::from(2u8), txs: vec![tx1, tx2] }
+    };
+    let block = mk(&a, &v);
+    let mut bal = mk_dump(64);
+    let mut uns = ux::mk_dump(64);
+    match bal.on_block(&block, 9) { Ok(()) => {}, Err(e) => { core::mem::forget(e); assert!(false, "C08:on_block_ok"); } }
+    match uns.on_block(&block, 9) { Ok(()) => {}, Err(e) => { core::mem::forget(e); assert!(false, "C08:on_block_ok"); } }
+    assert!(bal.unspents.len() == ux::unspent_len(&uns), "C08:balances_and_unspent_dump_hold_the_same_outputs");
+    let keys = [cm::key_of(&id1, 0), cm::key_of(&id1, 1), cm::key_of(&id2, 0)];
+    let mut k = 0;
+    while k < 3 {
+        let b = bal.unspents.get(&keys[k]).map(|u| (u.block_height, u.value, u.address.as_bytes()[0]));
+        let u = ux::unspent_get(&uns, &keys[k]);
+        assert!(b == u, "C08:balances_and_unspent_dump_hold_the_same_outputs");
+        k += 1;
+    }
+    // and the set is the C07 set: tx1 outputs unless address-less or spent by tx2; tx2's output unless address-less
+    let spent0 = sp_first == 1 && sp_ix == 0;
+    let spent1 = sp_first == 1 && sp_ix == 1;
+    assert!(bal.unspents.get(&keys[0]).is_some() == (a[0] != 0 && !spent0), "C07:unspent_address_bearing_output_is_listed");
+    assert!(bal.unspents.get(&keys[1]).is_some() == (a[1] != 0 && !spent1), "C07:unspent_address_bearing_output_is_listed");
+    assert!(bal.unspents.get(&keys[2]).is_some() == (a[2] != 0), "C07:unspent_address_bearing_output_is_listed");
+    kani::cover!(spent1 && a[1] != 0, "in-block spend of the second output");
+    kani::cover!(a[0] == 0 && a[1] != 0, "address-less output before an address-bearing one");
+    kani::cover!(sp_first != 1, "spend of an unknown outpoint");
+    core::mem::forget(bal); core::mem::forget(uns); core::mem::forget(block); core::mem::forget(keys);
 }
